@@ -309,13 +309,13 @@ pub fn eval(rig: &KeeperRig, env: &mut Env, known: &crate::report::Known, case: 
                 let polls_needed = 2;
                 let r = if *key_shape != KeyShape::Good {
                     rig.host.with(|s| {
-                        s.pending = Some(Step { doc: Some(doc.to_json()), keep_doc: false, status_fault: None, acquire_faults: acquire_faults.clone(), attest_faults: attest_faults.clone(), rotate: true, key_shape: Some(key_shape.clone()) });
+                        s.pending = Some(Step { doc: Some(doc.to_json()), keep_doc: false, status_fault: None, acquire_faults: acquire_faults.clone(), attest_faults: attest_faults.clone(), rotate: true, rotate_foreign: false, key_shape: Some(key_shape.clone()) });
                     });
                     std::thread::sleep(Duration::from_millis(120));
                     // back to good keys so that the history can go on
                     rig.run_step(Step { keep_doc: true, key_shape: Some(KeyShape::Good), ..Default::default() }, polls_needed, timeout)
                 } else {
-                    rig.run_step(Step { doc: Some(doc.to_json()), keep_doc: false, status_fault: None, acquire_faults: acquire_faults.clone(), attest_faults: attest_faults.clone(), rotate: *rotate, key_shape: Some(KeyShape::Good) }, polls_needed, timeout)
+                    rig.run_step(Step { doc: Some(doc.to_json()), keep_doc: false, status_fault: None, acquire_faults: acquire_faults.clone(), attest_faults: attest_faults.clone(), rotate: *rotate, rotate_foreign: false, key_shape: Some(KeyShape::Good) }, polls_needed, timeout)
                 };
                 if let Err(e) = r {
                     inconclusive = Some(format!("step {}: {}", i, e));
